@@ -77,4 +77,394 @@ theorem loadIndex_ok (db : BlockDB) (cur : Nat) (hlen : db.indexList.length ≤ 
   · rw [if_pos h, if_pos ⟨h.1, by omega⟩]
   · rw [if_neg h, if_neg (by omega)]
 
+
+/-- what `loadHeaderIndexList` and the header-index bookkeeping rely on -/
+structure IndexInv (g : Block) (s : State) : Prop where
+  nonzero : ∀ i h, s.dur.blocks.hashAt i = some h → h ≠ zeroHash
+  storedLen : s.mem.storedIndexCount = s.dur.blocks.indexList.length
+  memIdx : ∀ j, j ≤ s.mem.currHeight → s.mem.headerIndex j = s.dur.blocks.hashAt j
+  listIdx : ∀ j, j < s.dur.blocks.indexList.length → s.dur.blocks.indexList[j]? = s.dur.blocks.hashAt j
+  listLen : s.dur.blocks.indexList.length ≤ s.mem.currHeight + 1
+  keys : ∀ j, (s.mem.headerIndex j).isSome ↔ j < s.mem.headerCount
+  ahead : s.mem.currHeight + 1 ≤ s.mem.headerCount
+  genesis : (s.dur.blocks.blockAt g.header.hash).isSome
+
+/-- the configuration lookup of a restart resolves: the tip's payload decodes and either announces a configuration
+or names (`LastConfigBlockNum`) a committed height whose block does. The ledger does not check this field of a
+header; the consensus layer that signs headers is responsible for it. -/
+def TipCfgSound (s : State) : Prop :=
+  ∀ tip, s.dur.blocks.blockAt s.mem.currHash = some tip →
+    tip.header.payloadOk = true ∧
+    (tip.header.newCfg.isSome ∨
+      (tip.header.lastCfg ≤ s.mem.currHeight ∧
+        ∀ h c, s.dur.blocks.hashAt tip.header.lastCfg = some h → s.dur.blocks.blockAt h = some c →
+          c.header.payloadOk = true ∧ c.header.newCfg.isSome))
+
+theorem loadIndex_of_inv (g : Block) (s : State) (hc : Chain g s) (hi : IndexInv g s) :
+    ∃ idx, loadIndex s.dur.blocks s.mem.currHeight = .ok (idx, s.mem.currHeight + 1, s.dur.blocks.indexList.length) ∧
+      (∀ j, j ≤ s.mem.currHeight → idx j = s.dur.blocks.hashAt j) ∧ (∀ j, (idx j).isSome ↔ j < s.mem.currHeight + 1) := by
+  obtain ⟨idx, r1, r2, r3⟩ := loadIndex_ok s.dur.blocks s.mem.currHeight hi.listLen
+    (by
+      intro j _ h2
+      obtain ⟨blk, a1, -, -⟩ := hc.stored j h2
+      exact ⟨_, a1, hi.nonzero j _ a1⟩)
+  refine ⟨idx, r1, ?_, r3⟩
+  intro j hj
+  rw [r2 j]
+  by_cases h : s.dur.blocks.indexList.length ≤ j
+  · rw [if_pos ⟨h, hj⟩]
+  · rw [if_neg (by omega)]
+    exact hi.listIdx j (by omega)
+
+/-- **a restart of a reachable ledger succeeds** as soon as the configuration lookup resolves -/
+theorem reopen_succeeds (p : Params) (g : Block) (s : State) (hs : Synced s) (hc : Chain g s) (hi : IndexInv g s)
+    (hcfg : TipCfgSound s) : ∃ t, reopen p g s.dur = .ok t := by
+  rw [reopen_synced p g s s.dur hs (sameStores_self s hs)]
+  have hg : ¬ (s.dur.blocks.blockAt g.header.hash).isNone = true := by
+    have := hi.genesis
+    cases h : s.dur.blocks.blockAt g.header.hash <;> simp_all
+  rw [if_neg hg]
+  obtain ⟨idx, r1, r2, -⟩ := loadIndex_of_inv g s hc hi
+  rw [r1]
+  simp only
+  obtain ⟨tipB, t1, t2, t3⟩ := hc.stored s.mem.currHeight (Nat.le_refl _)
+  have htip : s.dur.blocks.blockAt s.mem.currHash = some tipB := by
+    rw [hc.tip] at t1
+    rw [Option.some.inj t1]; exact t2
+  obtain ⟨p1, p2⟩ := hcfg tipB htip
+  unfold withPeers loadPeers
+  simp only [restartMem, htip, Option.map_some, p1, Bool.not_true, Bool.false_eq_true, if_false]
+  cases hn : tipB.header.newCfg with
+  | some c => exact ⟨_, rfl⟩
+  | none =>
+    rw [hn] at p2
+    rcases p2 with p2 | ⟨q1, q2⟩
+    · cases p2
+    · obtain ⟨cb, c1, c2, -⟩ := hc.stored tipB.header.lastCfg q1
+      obtain ⟨d1, d2⟩ := q2 _ cb c1 c2
+      simp only [r2 _ q1, c1, c2, Option.map_some, d1, Bool.not_true, Bool.false_eq_true, if_false]
+      cases hcn : cb.header.newCfg with
+      | some c => exact ⟨_, rfl⟩
+      | none => rw [hcn] at d2; cases d2
+
+
+
+theorem BlockDB.commit_tail_indexList (db : BlockDB) (b : Block) :
+    (db.commit [.current b.header.hash b.header.height, .blockHash b.header.height b.header.hash, .block b]).indexList
+      = db.indexList := by
+  simp [BlockDB.apply]
+
+/-- header-index bookkeeping of a submitted block -/
+theorem submitted_index_fields (p : Params) (s : State) (b : Block) (res : ExecResult) :
+    (submitted p s b res).mem.headerIndex = upd s.mem.headerIndex b.header.height (some b.header.hash) ∧
+    (submitted p s b res).mem.headerCount =
+      (if (s.mem.headerIndex b.header.height).isSome then s.mem.headerCount else s.mem.headerCount + 1) ∧
+    (if s.mem.currHeight - s.mem.storedIndexCount < p.batch then
+        (submitted p s b res).mem.storedIndexCount = s.mem.storedIndexCount ∧
+        (submitted p s b res).dur.blocks.indexList = s.dur.blocks.indexList
+      else
+        (submitted p s b res).mem.storedIndexCount = s.mem.storedIndexCount + p.batch ∧
+        (submitted p s b res).dur.blocks.indexList = s.dur.blocks.indexList.take s.mem.storedIndexCount ++
+          (List.range p.batch).map (fun i =>
+            ((upd s.mem.headerIndex b.header.height (some b.header.hash)) (s.mem.storedIndexCount + i)).getD zeroHash)) := by
+  have e1 : (submitted p s b res).dur.blocks = s.dur.blocks.commit (blockBatch p s.mem b) := by
+    simp [submitted, persisted, fillAll]
+  refine ⟨?_, ?_, ?_⟩
+  · simp only [submitted, fillAll, fillMem, fillBlockMem, indexMem, setIndex]
+    by_cases hc : s.mem.currHeight - s.mem.storedIndexCount < p.batch <;> simp [hc]
+  · simp only [submitted, fillAll, fillMem, fillBlockMem, indexMem, setIndex]
+    by_cases hc : s.mem.currHeight - s.mem.storedIndexCount < p.batch <;> simp [hc]
+  · rw [e1]
+    unfold blockBatch
+    rw [BlockDB.commit_append, BlockDB.commit_tail_indexList]
+    by_cases hc : s.mem.currHeight - s.mem.storedIndexCount < p.batch
+    · rw [if_pos hc]
+      constructor
+      · simp [submitted, fillAll, fillMem, fillBlockMem, indexMem, setIndex, hc]
+      · simp [indexWrites, setIndex, hc]
+    · rw [if_neg hc]
+      constructor
+      · simp [submitted, fillAll, fillMem, fillBlockMem, indexMem, setIndex, hc]
+      · simp [indexWrites, setIndex, hc, BlockDB.apply]
+
+
+
+theorem submitted_indexInv (p : Params) (g : Block) (s : State) (b : Block) (res : ExecResult)
+    (hc : Chain g s) (hi : IndexInv g s) (hh : b.header.height = s.mem.currHeight + 1)
+    (hnz : b.header.hash ≠ zeroHash) : IndexInv g (submitted p s b res) := by
+  obtain ⟨f1, f2, f3, f4, f5, f6, -, -⟩ := submitted_facts p s b res
+  obtain ⟨x1, x2, x3⟩ := submitted_index_fields p s b res
+  have hstored := hi.storedLen
+  have hlistLen := hi.listLen
+  -- entries of the new batch are the hashes of committed blocks
+  have hentry : ∀ j, j ≤ s.mem.currHeight →
+      ((upd s.mem.headerIndex b.header.height (some b.header.hash)) j).getD zeroHash = (s.dur.blocks.hashAt j).getD zeroHash ∧
+      (s.dur.blocks.hashAt j).isSome := by
+    intro j hj
+    rw [upd_other _ _ _ _ (by omega), hi.memIdx j hj]
+    obtain ⟨blk, a1, -, -⟩ := hc.stored j hj
+    exact ⟨rfl, by rw [a1]; rfl⟩
+  constructor
+  · intro i h hi'
+    by_cases hib : i = b.header.height
+    · subst hib; rw [f3] at hi'; rw [← Option.some.inj hi']; exact hnz
+    · rw [f4 i hib] at hi'; exact hi.nonzero i h hi'
+  · by_cases hcnd : s.mem.currHeight - s.mem.storedIndexCount < p.batch
+    · rw [if_pos hcnd] at x3; rw [x3.1, x3.2]; exact hstored
+    · rw [if_neg hcnd] at x3; rw [x3.1, x3.2]
+      simp only [List.length_append, List.length_take, List.length_map, List.length_range]
+      omega
+  · intro j hj
+    rw [f1, hh] at hj
+    rw [x1]
+    by_cases hjb : j = b.header.height
+    · subst hjb; rw [upd_same, f3]
+    · rw [upd_other _ _ _ _ hjb, f4 j hjb]
+      exact hi.memIdx j (by omega)
+  · by_cases hcnd : s.mem.currHeight - s.mem.storedIndexCount < p.batch
+    · rw [if_pos hcnd] at x3
+      intro j hj
+      rw [x3.2] at hj ⊢
+      rw [f4 j (by omega)]
+      exact hi.listIdx j hj
+    · rw [if_neg hcnd] at x3
+      intro j hj
+      rw [x3.2] at hj ⊢
+      simp only [List.length_append, List.length_take, List.length_map, List.length_range] at hj
+      have hbatch : s.mem.storedIndexCount + p.batch ≤ s.mem.currHeight + 1 := by omega
+      rw [f4 j (by omega)]
+      by_cases hjs : j < s.mem.storedIndexCount
+      · rw [List.getElem?_append_left (by simp; omega), List.getElem?_take_of_lt hjs]
+        exact hi.listIdx j (by omega)
+      · rw [List.getElem?_append_right (by simp; omega)]
+        simp only [List.length_take]
+        have hmin : min s.mem.storedIndexCount s.dur.blocks.indexList.length = s.mem.storedIndexCount := by omega
+        rw [hmin]
+        have hlt : j - s.mem.storedIndexCount < p.batch := by omega
+        rw [List.getElem?_map, List.getElem?_range hlt]
+        simp only [Option.map_some]
+        have hjc : j ≤ s.mem.currHeight := by omega
+        have e : s.mem.storedIndexCount + (j - s.mem.storedIndexCount) = j := by omega
+        rw [e]
+        obtain ⟨q1, q2⟩ := hentry j hjc
+        rw [q1]
+        cases hq : s.dur.blocks.hashAt j with
+        | none => rw [hq] at q2; cases q2
+        | some h => rfl
+  · rw [f1, hh]
+    by_cases hcnd : s.mem.currHeight - s.mem.storedIndexCount < p.batch
+    · rw [if_pos hcnd] at x3; rw [x3.2]; omega
+    · rw [if_neg hcnd] at x3; rw [x3.2]
+      simp only [List.length_append, List.length_take, List.length_map, List.length_range]
+      omega
+  · intro j
+    rw [x1, x2]
+    have hk := hi.keys
+    have ha := hi.ahead
+    by_cases hjb : j = b.header.height
+    · subst hjb
+      rw [upd_same]
+      by_cases hsome : (s.mem.headerIndex b.header.height).isSome = true
+      · rw [if_pos hsome]; have := (hk b.header.height).mp hsome; simp; omega
+      · rw [if_neg hsome]
+        have : ¬ b.header.height < s.mem.headerCount := fun h => hsome ((hk _).mpr h)
+        simp; omega
+    · rw [upd_other _ _ _ _ hjb, hk j]
+      by_cases hsome : (s.mem.headerIndex b.header.height).isSome = true
+      · rw [if_pos hsome]
+      · rw [if_neg hsome]
+        have : ¬ b.header.height < s.mem.headerCount := fun h => hsome ((hk _).mpr h)
+        omega
+  · rw [f1, x2]
+    have hk := hi.keys
+    have ha := hi.ahead
+    by_cases hsome : (s.mem.headerIndex b.header.height).isSome = true
+    · rw [if_pos hsome]; have := (hk b.header.height).mp hsome; omega
+    · rw [if_neg hsome]; omega
+  · by_cases hgb : g.header.hash = b.header.hash
+    · rw [hgb, f5]; rfl
+    · rw [f6 _ hgb]; exact hi.genesis
+
+
+
+theorem indexInv_of_same (g : Block) (s t : State) (hi : IndexInv g s) (hb : t.dur.blocks = s.dur.blocks)
+    (h1 : t.mem.currHeight = s.mem.currHeight) (h2 : t.mem.headerIndex = s.mem.headerIndex)
+    (h3 : t.mem.headerCount = s.mem.headerCount) (h4 : t.mem.storedIndexCount = s.mem.storedIndexCount) :
+    IndexInv g t := by
+  constructor
+  · rw [hb]; exact hi.nonzero
+  · rw [hb, h4]; exact hi.storedLen
+  · rw [hb, h1, h2]; exact hi.memIdx
+  · rw [hb]; exact hi.listIdx
+  · rw [hb, h1]; exact hi.listLen
+  · rw [h2, h3]; exact hi.keys
+  · rw [h1, h3]; exact hi.ahead
+  · rw [hb]; exact hi.genesis
+
+theorem addHeader_indexInv (p : Params) (g : Block) (s s' : State) (hd : Header) (hi : IndexInv g s)
+    (h : addHeader p s hd = .ok s') : IndexInv g s' := by
+  unfold addHeader at h
+  split at h
+  · cases h
+  · rename_i hh
+    split at h
+    · cases h
+    · injection h with h
+      subst h
+      have hk := hi.keys
+      have ha := hi.ahead
+      have hhe : hd.height = s.mem.headerCount := by
+        have : ¬ hd.height ≠ headerHeight s.mem + 1 := hh
+        unfold headerHeight at this
+        split at this <;> omega
+      have hnone : ¬ (s.mem.headerIndex hd.height).isSome = true := by
+        rw [hk, hhe]; omega
+      constructor
+      · exact hi.nonzero
+      · exact hi.storedLen
+      · intro j hj
+        show (upd s.mem.headerIndex hd.height (some hd.hash)) j = _
+        rw [upd_other _ _ _ _ (by have : j ≤ s.mem.currHeight := hj; omega)]
+        exact hi.memIdx j hj
+      · exact hi.listIdx
+      · exact hi.listLen
+      · intro j
+        show ((upd s.mem.headerIndex hd.height (some hd.hash)) j).isSome = true ↔
+          j < (if (s.mem.headerIndex hd.height).isSome then s.mem.headerCount else s.mem.headerCount + 1)
+        rw [if_neg hnone]
+        by_cases hj : j = hd.height
+        · subst hj; rw [upd_same]; simp; omega
+        · rw [upd_other _ _ _ _ hj, hk j]; omega
+      · show s.mem.currHeight + 1 ≤ (if (s.mem.headerIndex hd.height).isSome then s.mem.headerCount else s.mem.headerCount + 1)
+        rw [if_neg hnone]; omega
+      · exact hi.genesis
+
+/-- the state a restart of a consistent ledger produces, explicitly -/
+theorem reopen_synced_form (p : Params) (g : Block) (s t : State) (d : Durable) (hs : Synced s) (hd : SameStores d s)
+    (h : reopen p g d = .ok t) :
+    ∃ r set, loadIndex s.dur.blocks s.mem.currHeight = .ok r ∧
+      t = { dur := d, mem := { restartMem s r with peersH := set, peersB := set } } := by
+  rw [reopen_synced p g s d hs hd] at h
+  split at h
+  · cases h
+  · split at h
+    · cases h
+    · rename_i r hr
+      unfold withPeers at h
+      split at h
+      · cases h
+      · rename_i set _
+        injection h with h
+        exact ⟨r, set, hr, h.symm⟩
+
+theorem reopen_indexInv (p : Params) (g : Block) (s t : State) (d : Durable) (hs : Synced s) (hc : Chain g s)
+    (hi : IndexInv g s) (hd : SameStores d s) (h : reopen p g d = .ok t) : IndexInv g t := by
+  obtain ⟨r, set, hr, e⟩ := reopen_synced_form p g s t d hs hd h
+  obtain ⟨idx, r1, r2, r3⟩ := loadIndex_of_inv g s hc hi
+  rw [r1] at hr
+  have hr' : r = (idx, s.mem.currHeight + 1, s.dur.blocks.indexList.length) := (Except.ok.inj hr).symm
+  subst hr'
+  subst e
+  constructor
+  · show ∀ i h, d.blocks.hashAt i = some h → _; rw [hd.1]; exact hi.nonzero
+  · show s.dur.blocks.indexList.length = d.blocks.indexList.length; rw [hd.1]
+  · intro j hj
+    show idx j = d.blocks.hashAt j
+    rw [hd.1]; exact r2 j hj
+  · show ∀ j, j < d.blocks.indexList.length → _; rw [hd.1]; exact hi.listIdx
+  · show d.blocks.indexList.length ≤ s.mem.currHeight + 1; rw [hd.1]; exact hi.listLen
+  · exact r3
+  · exact Nat.le_refl _
+  · show (d.blocks.blockAt g.header.hash).isSome = true; rw [hd.1]; exact hi.genesis
+
+
+
+theorem initLedger_indexInv (p : Params) (g : Block) (s : State) (hg : g.header.height = 0)
+    (hnz : g.header.hash ≠ zeroHash) (h : initLedger p g = .ok s) : IndexInv g s := by
+  obtain ⟨set, hd, hm⟩ := initLedger_form p g s h
+  obtain ⟨f1, f2, f3, f4, f5, f6, -, -⟩ := submitted_facts p gen0 g (executeBlock p gen0 g).1
+  obtain ⟨x1, x2, x3⟩ := submitted_index_fields p gen0 g (executeBlock p gen0 g).1
+  have k1 : s.mem.currHeight = 0 := by rw [hm]; show (genSubmitted p g).mem.currHeight = 0; unfold genSubmitted; rw [f1, hg]
+  have k3 : s.dur.blocks.hashAt = (genSubmitted p g).dur.blocks.hashAt := by rw [hd]
+  have k4 : s.dur.blocks.blockAt = (genSubmitted p g).dur.blocks.blockAt := by rw [hd]
+  have k5 : s.dur.blocks.indexList = (genSubmitted p g).dur.blocks.indexList := by rw [hd]
+  have k6 : s.mem.headerIndex = upd (fun _ => none) 0 (some g.header.hash) := by
+    rw [hm]; show (genSubmitted p g).mem.headerIndex = _; unfold genSubmitted; rw [x1, hg]; rfl
+  have k7 : s.mem.headerCount = 1 := by
+    rw [hm]; show (genSubmitted p g).mem.headerCount = 1; unfold genSubmitted; rw [x2]; rfl
+  have k8 : s.mem.storedIndexCount = 0 ∧ s.dur.blocks.indexList = [] := by
+    rw [k5, hm]
+    show (genSubmitted p g).mem.storedIndexCount = 0 ∧ (genSubmitted p g).dur.blocks.indexList = []
+    unfold genSubmitted
+    by_cases hc : gen0.mem.currHeight - gen0.mem.storedIndexCount < p.batch
+    · rw [if_pos hc] at x3; rw [x3.1, x3.2]; exact ⟨rfl, rfl⟩
+    · rw [if_neg hc] at x3; rw [x3.1, x3.2]
+      have hb : p.batch = 0 := by
+        have : gen0.mem.currHeight - gen0.mem.storedIndexCount = 0 := rfl
+        omega
+      rw [hb]; exact ⟨rfl, rfl⟩
+  unfold genSubmitted at k3 k4
+  constructor
+  · intro i x hx
+    rw [k3] at hx
+    by_cases hi0 : i = g.header.height
+    · subst hi0; rw [f3] at hx; rw [← Option.some.inj hx]; exact hnz
+    · rw [f4 i hi0] at hx; cases hx
+  · rw [k8.1, k8.2]; rfl
+  · intro j hj
+    rw [k1] at hj
+    have : j = 0 := by omega
+    subst this
+    rw [k6, upd_same, k3, ← hg, f3]
+  · intro j hj; rw [k8.2] at hj; cases hj
+  · rw [k8.2]; simp
+  · intro j
+    rw [k6, k7]
+    by_cases hj : j = 0
+    · subst hj; simp [upd]
+    · rw [upd_other _ _ _ _ hj]; simp; omega
+  · rw [k1, k7]; omega
+  · rw [k4, f5]; rfl
+
+theorem reachV_indexInv (p : Params) (g : Block) (hg : g.header.height = 0) (hnz : g.header.hash ≠ zeroHash)
+    (s : State) (h : ReachV p g s) : IndexInv g s := by
+  induction h with
+  | init h => exact initLedger_indexInv p g _ hg hnz h
+  | @add s0 s1 b root hr hn h ih =>
+    have hc := reachV_chain p g hg s0 hr
+    rcases addBlock_cases p s0 s1 b root h with ⟨-, e⟩ | ⟨hh, ⟨set, -, e⟩, -, -⟩
+    · subst e; exact ih
+    · subst e
+      exact indexInv_of_same g _ _ (submitted_indexInv p g s0 b _ hc ih hh hn.2.2) rfl rfl rfl rfl rfl
+  | @sub s0 s1 b hr hn h ih =>
+    have hc := reachV_chain p g hg s0 hr
+    rcases submitChecked_cases p s0 s1 b h with ⟨-, e⟩ | ⟨hh, ⟨set, -, e⟩, -⟩
+    · subst e; exact ih
+    · subst e
+      exact indexInv_of_same g _ _ (submitted_indexInv p g s0 b _ hc ih hh hn.2.2) rfl rfl rfl rfl rfl
+  | hdr hd _ _ h ih => exact addHeader_indexInv p g _ _ hd ih h
+  | @restart s0 s1 hr h ih =>
+    have hs := reach_synced p g hg s0 (reachV_reach p g s0 hr)
+    exact reopen_indexInv p g s0 s1 _ hs (reachV_chain p g hg s0 hr) ih (sameStores_self s0 hs) h
+  | @crash s0 s1 s2 b root k hr hn hh ha hk h ih =>
+    have hs := reach_synced p g hg s0 (reachV_reach p g s0 hr)
+    have hc := reachV_chain p g hg s0 hr
+    by_cases h0 : k = 0
+    · subst h0
+      exact reopen_indexInv p g s0 s1 _ hs hc ih (crashD0_same p s0 b hs) h
+    · rw [reopen_crash_ge1 p g s0 b k hs hh (by omega) hk, ← submitted_dur] at h
+      have hs3 := submitted_synced_next p s0 b (p.exec s0.dur.states.kv b) hs hh
+      have hc3 := submitted_chain p g s0 s2 b root hc hn hh ha
+      have hi3 := submitted_indexInv p g s0 b (p.exec s0.dur.states.kv b) hc ih hh hn.2.2
+      exact reopen_indexInv p g _ s1 _ hs3 hc3 hi3 (sameStores_self _ hs3) h
+
+/-- **a restart of any reachable ledger succeeds** (NewStateStore checks, version, genesis, loadCurrentBlock,
+loadHeaderIndexList over stored batches and block hashes, recoverStore) provided the configuration lookup through the
+tip header resolves -/
+theorem reachV_restart_succeeds (p : Params) (g : Block) (hg : g.header.height = 0) (hnz : g.header.hash ≠ zeroHash)
+    (s : State) (h : ReachV p g s) (hcfg : TipCfgSound s) : ∃ t, reopen p g s.dur = .ok t :=
+  reopen_succeeds p g s (reach_synced p g hg s (reachV_reach p g s h)) (reachV_chain p g hg s h)
+    (reachV_indexInv p g hg hnz s h) hcfg
+
+
 end Poly.Model.Ledger
